@@ -23,7 +23,7 @@ def profiles(nmax, dmax, nmin=1):
             yield ds
 
 
-def build(macro, depths, flavour=None, handler=None, lets=(), rich=False, readers=(), hpos=None, wrap=False):
+def build(macro, depths, flavour=None, handler=None, lets=(), rich=False, readers=(), hpos=None, wrap=False, init_ev=False):
     """lets: iterable of (branch, is_mut); readers: iterable of (reader_branch, step>=1) where the capture of
     that branch-step snapshots every visible name; rich: every step >= 1 carries a capture, an error-side
     callback and a non-closure operand (C06); wrap: every step >= 1 is opened by a deferred wrapper
@@ -54,12 +54,16 @@ def build(macro, depths, flavour=None, handler=None, lets=(), rich=False, reader
         e = "100 * %d + int(%d)" % (b, OFF)
         if not is_try:
             x = "st(%d, %s)" % (slot(b, 0), e)
+            if init_ev:
+                x = "lg(\"%d.0.i\", %s)" % (b, x)
             if wrap and not is_async:
                 x = "Some(%s)" % x
         elif flavour == "Res":
             x = "st_r(%d, %d, %s)" % (slot(b, 0), payload(b, 0), e)
         else:
             x = "st_o(%d, %s)" % (slot(b, 0), e)
+        if init_ev and is_try:
+            x = "lg(\"%d.0.i\", %s)" % (b, x)
         return "ready(%s)" % x if is_async else x
 
     branches = []
@@ -129,13 +133,15 @@ fn trt() -> tokio::runtime::Runtime { tokio::runtime::Builder::new_current_threa
 """
 
 
-def to_prog(pid, p, rows, cmp=None, sub=()):
+def bodies(p, end_marker=False):
+    """(reference body, macro body, dsl text, reference text) of fn r()/m() -> String for program p"""
     d = dsl.program_dsl(p)
     anyof = p.is_async and p.is_try
     r = dsl.program_ref(p, anyof=anyof)
-    fmt = "\nformat!(\"{:?}\", x)"
+    end = "ev0(\"end.99.z\"); " if end_marker else ""
+    fmt = "\n%sformat!(\"{:?}\", x)" % end
     if anyof:
-        rb = "futures::executor::block_on(%s)" % r
+        rb = "let x = futures::executor::block_on(%s);\n%sx" % (r, end)
     elif p.is_async:
         rb = "let x = futures::executor::block_on(%s);%s" % (r, fmt)
     else:
@@ -146,6 +152,11 @@ def to_prog(pid, p, rows, cmp=None, sub=()):
         mb = "let x = futures::executor::block_on(%s);%s" % (d, fmt)
     else:
         mb = "let x = %s;%s" % (d, fmt)
+    return rb, mb, d, r
+
+
+def to_prog(pid, p, rows, cmp=None, sub=()):
+    rb, mb, d, r = bodies(p)
     if cmp is None:
         if p.is_async:
             cmp = "TryAsync" if p.is_try else "ProjSteps"
@@ -154,19 +165,6 @@ def to_prog(pid, p, rows, cmp=None, sub=()):
         else:
             cmp = "Full"
     return Prog(pid, rb, mb, rows, cmp, meta={"macro": p.macro, "dsl": d, "ref": r}, sub=sub)
-
-
-def failure_rows(depths, maxrows=None):
-    """every subset of (branch, step) positions marked failing"""
-    pos = [(b, k) for b, d in enumerate(depths) for k in range(d)]
-    rows = []
-    for mask in range(1 << len(pos)):
-        row = [0] * (max(slot(b, k) for b, k in pos) + 1)
-        for i, (b, k) in enumerate(pos):
-            if mask >> i & 1:
-                row[slot(b, k)] = 1
-        rows.append(row)
-    return rows
 
 
 def fail_slots(depths):
